@@ -241,9 +241,10 @@ func (e *Engine) concreteInt(st *State, t *term.Term, what string) int {
 		}
 		panic(splitVals{t, leaves})
 	}
-	// ask the solver for the feasible values (bounded)
+	// ask the solver for the feasible values (bounded); check + get-value pairs form one solver session
 	var vals []*term.Term
 	cond := st.PC
+	unlock := e.lockSolver()
 	for len(vals) <= e.MaxEnum {
 		pv := e.probeVar(t)
 		r := e.checkModel(cond)
@@ -258,6 +259,7 @@ func (e *Engine) concreteInt(st *State, t *term.Term, what string) int {
 		vals = append(vals, v)
 		cond = term.And(cond, term.Not(term.Eq(t, v)))
 	}
+	unlock()
 	if len(vals) == 0 || len(vals) > e.MaxEnum {
 		abort("UNMODELLED", "cannot enumerate symbolic %s %s (found %d values)", what, t, len(vals))
 	}
